@@ -13,7 +13,9 @@
    set iteration order, current directory); the correspondence over histories, invocation
    directories, PYTHONHASHSEED values and back-ends decides that per case. *)
 From Coq Require Import List String.
-From PC Require Import Base.Sexp Comp.Syntax Comp.Compile Comp.EmitProofs Comp.WfPil Comp.CompileProofs Hist.Purity Hist.Renumber Sys.System Sys.SysWfPil Sys.SysNames Sys.WfUnique Sys.SysFixed.
+From PC Require Import Base.Sexp Comp.Syntax Comp.Compile Comp.EmitProofs Comp.WfPil Comp.CompileProofs Hist.Purity Hist.Renumber Sys.System Sys.SysWfPil Sys.SysNames Sys.WfUnique Sys.SysFixed Hist.RenumberSys.
+Import ListNotations.
+Local Open Scope string_scope.
 
 Theorem C18_anon_name_injective : forall k k', anon_name k = anon_name k' -> k = k'.
 Proof. exact anon_name_injective. Qed.
@@ -50,3 +52,23 @@ Theorem C18_system_output_names_unique : forall fs includes ctr basename args fi
   NoDup (seq_line_names lines) /\ NoDup (strand_line_names lines) /\ NoDup (struct_line_names lines).
 Proof. exact fixed_system_names_unique. Qed.
 Print Assumptions C18_system_output_names_unique.
+
+(* "regardless of what was compiled earlier in the same process", whole nested systems: an earlier compilation only moves the
+   starting value of the anonymous counter; loading the same files with the same arguments from any other starting value
+   succeeds as well, uses up the same number of anonymous names, and yields the same tree of instances (prefixes, instance
+   names, signal tables, lengths, ports) in which every component is the old one with _Anon(k) renamed to
+   _Anon(ctr' + (k - ctr)) - the same shift everywhere (osim) *)
+Theorem C18_system_load_renumber : forall fs includes f ctr b args prefix path o ctr1,
+  load_file fs includes f ctr b args prefix path = OK (o, ctr1) ->
+  forall ctr', ctr <= ctr1 /\ exists o', load_file fs includes f ctr' b args prefix path = OK (o', ctr' + (ctr1 - ctr)) /\ osim ctr ctr' f o o'.
+Proof. exact load_file_renumber. Qed.
+Print Assumptions C18_system_load_renumber.
+
+(* ... and so for the compile as a whole: success and the number of anonymous names used do not depend on the history; the
+   two specifications are the emissions of two trees related by that renumbering *)
+Theorem C18_system_compile_history_independent : forall fs includes ctr b args lines ctr1,
+  compile_top fs includes ctr b args [] = OK (lines, ctr1) ->
+  forall ctr', exists o o' lines', load_file fs includes 12 ctr b args "" "." = OK (o, ctr1) /\ lines = emit_obj 12 o /\
+    compile_top fs includes ctr' b args [] = OK (lines', ctr' + (ctr1 - ctr)) /\ lines' = emit_obj 12 o' /\ osim ctr ctr' 12 o o'.
+Proof. exact compile_top_renumber. Qed.
+Print Assumptions C18_system_compile_history_independent.
